@@ -171,7 +171,11 @@ def differential_case(case):
             r1 = m1.path(X, y1, alpha_multiplier=2.0, min_features=1, max_patience=2)
             r2 = m2.path(X, Kname, alpha_multiplier=2.0, min_features=1, max_patience=2)
             for i, (a, b) in enumerate(zip(r1[1:], r2[1:])):
-                if not np.array_equal(np.asarray(a, dtype=float), np.asarray(b, dtype=float), equal_nan=True):
+                # validation scores are recomputed from X_batch[:, selection] (a differently laid out copy): BLAS may differ in the
+                # last bit, and an MMD of ~0 carries sqrt(rounding) noise; weights and alphas stay bitwise (below / index 2)
+                a_, b_ = np.asarray(a, dtype=float), np.asarray(b, dtype=float)
+                same = a_.shape == b_.shape and (np.array_equal(a_, b_, equal_nan=True) if i >= 2 else np.allclose(a_, b_, rtol=1e-9, atol=1e-7, equal_nan=True))
+                if not same:
                     v.append(violation("path_history_differs_named_vs_precomputed", {"history": i, "named": a, "precomputed": b}, **where))
             for a, b in zip(r1[0], r2[0]):
                 if not np.array_equal(a, b):
@@ -186,7 +190,7 @@ def differential_case(case):
                 v.append(violation("fitted_model_differs_named_vs_precomputed", {"attribute": k, "named": s1[k], "precomputed": s2.get(k)}, attribute=k, **where))
                 break
         sc1, sc2 = m1.score(X, y1), m2.score(X, Kname)
-        if not (sc1 == sc2):
+        if not abs(sc1 - sc2) <= 1e-9 * max(1.0, abs(sc1)) + 1e-7:
             v.append(violation("score_differs_named_vs_precomputed", {"named": sc1, "precomputed": sc2}, **where))
     return {"v": v[:3], "nt": [case], "stats": {"evals": 1}, "out": [(name, float(sc1))], "sample": {"estimator": name, "named": named, "precomputed": pre}}
 
